@@ -317,3 +317,283 @@ Section Sem.
     - rewrite lang_Sy. apply (rec_sound h x xr Hin IHx).
   Qed.
 End Sem.
+
+Lemma inl_mono D D' atom x r : incl D D' -> inl D atom x r -> inl D' atom x r.
+Proof.
+  intros Hi H. induction H; try (constructor; auto; fail).
+  - eapply inl_nt; eauto.
+  - eapply inl_rec; eauto.
+Qed.
+
+(* ---- invariants of the compiler state ---------------------------------------------------------- *)
+(* the pair (diff_target, diff_opt_target) of _generate_repeats: either the initial one or the two
+   helpers made from the same (a, b, previous target) *)
+Definition pair_ok (c : list (key * nat)) (atom dt dopt : bt) : Prop :=
+  (dt = atom /\ dopt = Sq []) \/
+  (exists a b t h ho, dt = Sy (NT (S h)) /\ dopt = Sy (NT (S ho)) /\
+                      In (KRep a b t atom, h) c /\ In (KOpt a b t atom, ho) c).
+
+Definition entry_ok (st : state) (k : key) (h : nat) : Prop :=
+  match k with
+  | KRec x => In (h, rec_body x h) (new_rules st)
+  | KRep a b tg atom => In (h, rep_body a b tg atom) (new_rules st) /\ Sy (NT (S h)) <> atom
+  | KOpt a b tg atom =>
+      exists topt, In (h, opt_body a b tg topt atom) (new_rules st) /\ pair_ok (cache st) atom tg topt
+  end.
+
+Record wf (st : state) : Prop := {
+  wf_rules : forall h t, In (h, t) (new_rules st) -> h < ctr st;
+  wf_cache : forall k h, In (k, h) (cache st) -> h < ctr st;
+  wf_keyfun : forall k h h', In (k, h) (cache st) -> In (k, h') (cache st) -> h = h';
+  wf_valfun : forall k k' h, In (k, h) (cache st) -> In (k', h) (cache st) -> k = k';
+  wf_entry : forall k h, In (k, h) (cache st) -> entry_ok st k h;
+  wf_defs : forall h t t', In (h, t) (new_rules st) -> In (h, t') (new_rules st) -> t = t' }.
+
+Definition ext (st st' : state) : Prop :=
+  incl (new_rules st) (new_rules st') /\ incl (cache st) (cache st') /\ ctr st <= ctr st'.
+
+Lemma ext_refl st : ext st st.
+Proof. repeat split; auto using incl_refl. Qed.
+Lemma ext_trans a b c : ext a b -> ext b c -> ext a c.
+Proof. intros (H1 & H2 & H3) (H4 & H5 & H6). repeat split; eauto using incl_tran. lia. Qed.
+
+Definition top_bound (t : bt) (n : nat) : Prop := forall h, t = Sy (NT (S h)) -> h < n.
+
+Lemma top_bound_mono t n m : top_bound t n -> n <= m -> top_bound t m.
+Proof. intros H Hl h Ht. specialize (H h Ht). lia. Qed.
+
+Lemma wf_st0 : wf st0.
+Proof. constructor; simpl; intros; contradiction. Qed.
+
+Lemma pair_ok_mono c c' atom dt dopt : incl c c' -> pair_ok c atom dt dopt -> pair_ok c' atom dt dopt.
+Proof.
+  intros Hi [H|(a & b & t & h & ho & H1 & H2 & H3 & H4)]; [left; auto|].
+  right. exists a, b, t, h, ho. auto.
+Qed.
+
+Lemma entry_ok_mono st st' k h : ext st st' -> entry_ok st k h -> entry_ok st' k h.
+Proof.
+  intros (H1 & H2 & H3). destruct k; simpl.
+  - auto.
+  - intros [Ha Hb]. split; auto.
+  - intros (topt & Ha & Hb). exists topt. split; auto. eapply pair_ok_mono; eauto.
+Qed.
+
+Lemma pair_ok_unique st atom dt dopt dopt' :
+  wf st -> pair_ok (cache st) atom dt dopt -> pair_ok (cache st) atom dt dopt' -> dopt = dopt'.
+Proof.
+  intros W [[H1 H2]|(a & b & t & h & ho & H1 & H2 & H3 & H4)]
+           [[H1' H2']|(a' & b' & t' & h' & ho' & H1' & H2' & H3' & H4')].
+  - congruence.
+  - exfalso. apply (wf_entry st W) in H3'. simpl in H3'. destruct H3' as [_ Hne]. congruence.
+  - exfalso. apply (wf_entry st W) in H3. simpl in H3. destruct H3 as [_ Hne]. congruence.
+  - assert (h = h') by congruence. subst h'.
+    pose proof (wf_valfun st W _ _ _ H3 H3') as Hk. inversion Hk; subst.
+    rewrite (wf_keyfun st W _ _ _ H4 H4'). auto.
+Qed.
+
+Lemma add_rule_wf k body st :
+  wf st -> lookup k (cache st) = None ->
+  entry_ok (snd (add_rule k body st)) k (ctr st) ->
+  wf (snd (add_rule k body st)) /\ ext st (snd (add_rule k body st)).
+Proof.
+  intros W Hl He.
+  assert (Hext : ext st (snd (add_rule k body st))).
+  { unfold add_rule, ext. simpl. repeat split; auto using incl_appl, incl_refl, incl_tl. }
+  split; auto. unfold add_rule in *. simpl in *. constructor; simpl.
+  - intros h t Hin. apply in_app_or in Hin. destruct Hin as [Hin|[Heq|[]]].
+    + apply (wf_rules st W) in Hin. lia.
+    + inversion Heq. lia.
+  - intros k' h [Heq|Hin].
+    + inversion Heq. lia.
+    + apply (wf_cache st W) in Hin. lia.
+  - intros k' h h' [Heq|Hin] [Heq'|Hin'].
+    + congruence.
+    + inversion Heq; subst. exfalso. eapply lookup_none; eauto.
+    + inversion Heq'; subst. exfalso. eapply lookup_none; eauto.
+    + eapply (wf_keyfun st W); eauto.
+  - intros k1 k2 h [Heq|Hin] [Heq'|Hin'].
+    + congruence.
+    + inversion Heq; subst. apply (wf_cache st W) in Hin'. lia.
+    + inversion Heq'; subst. apply (wf_cache st W) in Hin. lia.
+    + eapply (wf_valfun st W); eauto.
+  - intros k' h [Heq|Hin].
+    + inversion Heq; subst. exact He.
+    + eapply entry_ok_mono; [exact Hext|]. apply (wf_entry st W); auto.
+  - intros h t t' Hin Hin'. apply in_app_or in Hin. apply in_app_or in Hin'.
+    destruct Hin as [Hin|[Heq|[]]]; destruct Hin' as [Hin'|[Heq'|[]]].
+    + eapply (wf_defs st W); eauto.
+    + inversion Heq'; subst. apply (wf_rules st W) in Hin. lia.
+    + inversion Heq; subst. apply (wf_rules st W) in Hin'. lia.
+    + congruence.
+Qed.
+
+Lemma cached_spec k body st t st' :
+  wf st -> cached k body st = (t, st') ->
+  (lookup k (cache st) = None -> entry_ok (snd (add_rule k body st)) k (ctr st)) ->
+  exists h, t = Sy (NT (S h)) /\ In (k, h) (cache st') /\ wf st' /\ ext st st' /\ h < ctr st' /\
+            (lookup k (cache st) = None -> h = ctr st /\ st' = snd (add_rule k body st)).
+Proof.
+  intros W Hc He. unfold cached in Hc. destruct (lookup k (cache st)) as [h|] eqn:El.
+  - inversion Hc; subst. exists h. apply lookup_some in El. split; auto. split; auto. split; auto.
+    split; [apply ext_refl|]. split; [eapply wf_cache; eauto | discriminate].
+  - destruct (add_rule_wf k body st W El (He eq_refl)) as [W' Hext].
+    exists (ctr st). unfold add_rule in *. inversion Hc; subst. simpl in *.
+    split; [reflexivity|]. split; [left; reflexivity|]. split; [exact W'|]. split; [exact Hext|].
+    split; [lia|]. intros _; split; reflexivity.
+Qed.
+
+Lemma add_recurse_spec x st t st' :
+  wf st -> add_recurse x st = (t, st') ->
+  exists h, t = Sy (NT (S h)) /\ In (h, rec_body x h) (new_rules st') /\ wf st' /\ ext st st' /\ h < ctr st'.
+Proof.
+  intros W Hc. unfold add_recurse in Hc.
+  destruct (cached_spec _ _ _ _ _ W Hc) as (h & -> & Hin & W' & Hext & Hlt & _).
+  - intros _. simpl. apply in_or_app. right. left. auto.
+  - exists h. split; auto. split; auto. apply (wf_entry st' W') in Hin. exact Hin.
+Qed.
+
+Lemma add_repeat_rule_spec a b tg atom st t st' :
+  wf st -> top_bound atom (ctr st) -> add_repeat_rule' a b tg atom st = (t, st') ->
+  exists h, t = Sy (NT (S h)) /\ In (h, rep_body a b tg atom) (new_rules st') /\
+            In (KRep a b tg atom, h) (cache st') /\ wf st' /\ ext st st' /\ h < ctr st'.
+Proof.
+  intros W Hb Hc. unfold add_repeat_rule' in Hc.
+  destruct (cached_spec _ _ _ _ _ W Hc) as (h & -> & Hin & W' & Hext & Hlt & _).
+  - intros _. simpl. split; [apply in_or_app; right; left; auto|].
+    intros Heq. symmetry in Heq. apply Hb in Heq. lia.
+  - exists h. split; auto. pose proof (wf_entry st' W' _ _ Hin) as He. simpl in He. destruct He. auto 6.
+Qed.
+
+Lemma add_repeat_opt_rule_spec a b tg topt atom st t st' :
+  wf st -> pair_ok (cache st) atom tg topt -> add_repeat_opt_rule' a b tg topt atom st = (t, st') ->
+  exists h, t = Sy (NT (S h)) /\ In (h, opt_body a b tg topt atom) (new_rules st') /\
+            In (KOpt a b tg atom, h) (cache st') /\ wf st' /\ ext st st' /\ h < ctr st'.
+Proof.
+  intros W Hp Hc. unfold add_repeat_opt_rule' in Hc.
+  destruct (cached_spec _ _ _ _ _ W Hc) as (h & -> & Hin & W' & Hext & Hlt & _).
+  - intros _. simpl. exists topt. split; [apply in_or_app; right; left; auto|].
+    eapply pair_ok_mono; [|exact Hp]. apply incl_tl, incl_refl.
+  - exists h. split; auto. pose proof (wf_entry st' W' _ _ Hin) as He. simpl in He.
+    destruct He as (topt' & Hb & Hp').
+    assert (topt' = topt).
+    { eapply pair_ok_unique; [exact W' | exact Hp' |]. eapply pair_ok_mono; [|exact Hp]. apply Hext. }
+    subst. auto 6.
+Qed.
+
+(* ---- _generate_repeats with named, cached helpers reads as Ebnf/Repeat.generate_repeats -------- *)
+Lemma Forall2_map_same {X Y Z} (R : Y -> Z -> Prop) (f : X -> Y) (g : X -> Z) l :
+  (forall i, R (f i) (g i)) -> Forall2 R (map f l) (map g l).
+Proof. intros H. induction l; simpl; constructor; auto. Qed.
+
+Section Chain.
+  Variable rule : bt.
+
+  Lemma inl_rule D : inl D rule rule Atom.
+  Proof. constructor. Qed.
+
+  Lemma inl_rep_body D a b tg tr :
+    inl D rule tg tr -> inl D rule (rep_body a b tg rule) (add_repeat_rule a b tr Atom).
+  Proof.
+    intros H. unfold rep_body, add_repeat_rule. apply inl_alt_of. constructor; [|constructor].
+    apply inl_seq_of. apply Forall2_app; apply Forall2_repeat; auto. apply inl_rule.
+  Qed.
+
+  Lemma inl_opt_body D a b tg tr topt or :
+    inl D rule tg tr -> inl D rule topt or ->
+    inl D rule (opt_body a b tg topt rule) (add_repeat_opt_rule a b tr or Atom).
+  Proof.
+    intros H1 H2. unfold opt_body, add_repeat_opt_rule. apply inl_alt_of. apply Forall2_app.
+    - apply Forall2_map_same. intros i. apply inl_seq_of. apply Forall2_app.
+      + apply Forall2_repeat; auto.
+      + constructor; auto.
+    - apply Forall2_map_same. intros i. apply inl_seq_of. apply Forall2_app; apply Forall2_repeat; auto.
+      apply inl_rule.
+  Qed.
+
+  Lemma mn_fold_spec fs : forall tg tr st,
+    wf st -> top_bound rule (ctr st) -> top_bound tg (ctr st) -> inl (new_rules st) rule tg tr ->
+    let s := fold_left (mn_step' rule) fs (tg, st) in
+    wf (snd s) /\ ext st (snd s) /\ top_bound (fst s) (ctr (snd s)) /\
+    inl (new_rules (snd s)) rule (fst s) (fold_left (mn_step Atom) fs tr).
+  Proof.
+    induction fs as [|[a b] fs IH]; intros tg tr st W Hb Ht Hi; simpl.
+    - split; [exact W|]. split; [apply ext_refl|]. split; auto.
+    - change (mn_step' rule (tg, st) (a, b)) with (add_repeat_rule' a b tg rule st).
+      destruct (add_repeat_rule' a b tg rule st) as [t1 st1] eqn:E.
+      destruct (add_repeat_rule_spec _ _ _ _ _ _ _ W Hb E) as (h & -> & Hin & Hc & W1 & Hext & Hlt).
+      assert (Hb1 : top_bound rule (ctr st1)) by (eapply top_bound_mono; [exact Hb | apply Hext]).
+      assert (Ht1 : top_bound (Sy (NT (S h))) (ctr st1)) by (intros h' Heq; inversion Heq; subst; auto).
+      assert (Hi1 : inl (new_rules st1) rule (Sy (NT (S h))) (mn_step Atom tr (a, b))).
+      { eapply inl_nt; [exact Hin|]. apply inl_rep_body. eapply inl_mono; [apply Hext | exact Hi]. }
+      destruct (IH _ _ _ W1 Hb1 Ht1 Hi1) as (W2 & Hext2 & Ht2 & Hi2).
+      split; auto. split; [eapply ext_trans; eauto|]. split; auto.
+  Qed.
+
+  Lemma diff_fold_spec fs : forall dt dopt tr or st,
+    wf st -> top_bound rule (ctr st) -> pair_ok (cache st) rule dt dopt ->
+    inl (new_rules st) rule dt tr -> inl (new_rules st) rule dopt or ->
+    let s := fold_left (diff_step' rule) fs (dt, dopt, st) in
+    let s' := fold_left (diff_step Atom) fs (tr, or) in
+    wf (snd s) /\ ext st (snd s) /\ pair_ok (cache (snd s)) rule (fst (fst s)) (snd (fst s)) /\
+    inl (new_rules (snd s)) rule (fst (fst s)) (fst s') /\
+    inl (new_rules (snd s)) rule (snd (fst s)) (snd s').
+  Proof.
+    induction fs as [|[a b] fs IH]; intros dt dopt tr or st W Hb Hp Hi Ho; simpl.
+    - split; [exact W|]. split; [apply ext_refl|]. split; auto.
+    - destruct (add_repeat_opt_rule' a b dt dopt rule st) as [o1 st1] eqn:E1.
+      destruct (add_repeat_rule' a b dt rule st1) as [t2 st2] eqn:E2.
+      destruct (add_repeat_opt_rule_spec _ _ _ _ _ _ _ _ W Hp E1) as (ho & -> & Hino & Hco & W1 & Hext1 & _).
+      assert (Hb1 : top_bound rule (ctr st1)) by (eapply top_bound_mono; [exact Hb | apply Hext1]).
+      destruct (add_repeat_rule_spec _ _ _ _ _ _ _ W1 Hb1 E2) as (h & -> & Hin & Hc & W2 & Hext2 & _).
+      assert (Hext : ext st st2) by (eapply ext_trans; eauto).
+      assert (Hb2 : top_bound rule (ctr st2)) by (eapply top_bound_mono; [exact Hb | apply Hext]).
+      assert (Hp2 : pair_ok (cache st2) rule (Sy (NT (S h))) (Sy (NT (S ho)))).
+      { right. exists a, b, dt, h, ho. split; auto. split; auto. split; auto. apply Hext2. auto. }
+      assert (Hi' : inl (new_rules st2) rule dt tr) by (eapply inl_mono; [apply Hext | exact Hi]).
+      assert (Ho' : inl (new_rules st2) rule dopt or) by (eapply inl_mono; [apply Hext | exact Ho]).
+      assert (Hi2 : inl (new_rules st2) rule (Sy (NT (S h))) (add_repeat_rule a b tr Atom)).
+      { eapply inl_nt; [exact Hin|]. apply inl_rep_body; auto. }
+      assert (Ho2 : inl (new_rules st2) rule (Sy (NT (S ho))) (add_repeat_opt_rule a b tr or Atom)).
+      { eapply inl_nt; [apply Hext2; exact Hino|]. apply inl_opt_body; auto. }
+      destruct (IH _ _ _ _ _ W2 Hb2 Hp2 Hi2 Ho2) as (W3 & Hext3 & Hp3 & Hi3 & Ho3).
+      split; auto. split; [eapply ext_trans; eauto|]. auto.
+  Qed.
+
+  Lemma gen_repeats_spec mn mx st t st' r :
+    wf st -> top_bound rule (ctr st) ->
+    gen_repeats rule mn mx st = Ok (t, st') -> generate_repeats Atom mn mx = Ok r ->
+    wf st' /\ ext st st' /\ top_bound t (ctr st') /\ inl (new_rules st') rule t r.
+  Proof.
+    intros W Hb Hg Hr. unfold gen_repeats in Hg. unfold generate_repeats in Hr.
+    destruct (mx <? REPEAT_BREAK_THRESHOLD)%Z.
+    - inversion Hg; subst. inversion Hr; subst. split; auto. split; [apply ext_refl|].
+      split; [intros h Heq; discriminate|]. apply inl_alt_of. apply Forall2_map_same. intros n.
+      apply inl_seq_of. apply Forall2_repeat. apply inl_rule.
+    - destruct (small_factors (sf_fuel mn) mn SMALL_FACTOR_THRESHOLD) as [fs| |]; try discriminate.
+      cbn [rbind] in Hg, Hr.
+      destruct (mn_fold_spec (map natpair fs) rule Atom st W Hb Hb (inl_rule _)) as (W1 & Hext1 & Ht1 & Hi1).
+      set (s1 := fold_left (mn_step' rule) (map natpair fs) (rule, st)) in *.
+      destruct (mx =? mn)%Z.
+      + inversion Hr; subst. destruct s1 as [t1 st1]. inversion Hg; subst. auto.
+      + destruct (small_factors (sf_fuel (mx - mn + 1)) (mx - mn + 1) SMALL_FACTOR_THRESHOLD) as [dfs| |]; try discriminate.
+        cbn [rbind] in Hg, Hr.
+        assert (Hb1 : top_bound rule (ctr (snd s1))) by (eapply top_bound_mono; [exact Hb | apply Hext1]).
+        assert (Hp0 : pair_ok (cache (snd s1)) rule rule (Sq [])) by (left; auto).
+        assert (Ho0 : inl (new_rules (snd s1)) rule (Sq []) (seq_of [])) by constructor.
+        destruct (diff_fold_spec (removelast (map natpair dfs)) rule (Sq []) Atom (seq_of []) (snd s1)
+                    W1 Hb1 Hp0 (inl_rule _) Ho0) as (W2 & Hext2 & Hp2 & Hi2 & Ho2).
+        destruct (fold_left (diff_step' rule) (removelast (map natpair dfs)) (rule, Sq [], snd s1))
+          as [[dt dopt] st2]. simpl in W2, Hext2, Hp2, Hi2, Ho2.
+        set (p := last (map natpair dfs) (0, 0)) in *.
+        destruct (add_repeat_opt_rule' (fst p) (snd p) dt dopt rule st2) as [o3 st3] eqn:E3.
+        destruct (add_repeat_opt_rule_spec _ _ _ _ _ _ _ _ W2 Hp2 E3) as (ho & -> & Hino & Hco & W3 & Hext3 & _).
+        inversion Hg; subst. inversion Hr; subst.
+        assert (Hext : ext st st') by (eapply ext_trans; [exact Hext1 | eapply ext_trans; eauto]).
+        split; auto. split; auto. split; [intros h Heq; discriminate|].
+        apply inl_al_cons; [|apply inl_al_nil].
+        apply inl_sq_cons; [|apply inl_sq_cons; [|apply inl_sq_nil]].
+        * eapply inl_mono; [|exact Hi1]. apply (ext_trans _ _ _ Hext2 Hext3).
+        * eapply inl_nt; [exact Hino|]. apply inl_opt_body; eapply inl_mono; try apply Hext3; auto.
+  Qed.
+End Chain.
